@@ -39,3 +39,23 @@ def s_strlen(ex_, st, a, f, e):
 
 
 FOLD = {"strcmp": s_strcmp, "strncmp": s_strncmp, "memcmp": s_memcmp, "strlen": s_strlen}
+
+
+def byte_store(root, data, prefix=()):
+    """Store entries that make `data` (bytes) the content of the byte array at (root, prefix)."""
+    return {(root, tuple(prefix) + (k,)): INT(b) for k, b in enumerate(data)}
+
+
+def s_memchr(ex_, st, a, f, e):
+    """memchr over bytes held concretely in the abstract store (see byte_store)."""
+    p, c, n = a[0], a[1], a[2]
+    if p[0] != "ptr" or c[0] != "int" or n[0] != "int" or not p[2] or not isinstance(p[2][-1], int):
+        return None
+    base, off = p[2][:-1], p[2][-1]
+    for k in range(n[1]):
+        v = st.store.get((p[1], base + (off + k,)))
+        if v is None or v[0] != "int":
+            return None
+        if v[1] == (c[1] & 0xff):
+            return [(("ptr", p[1], base + (off + k,)), {})]
+    return [(("null",), {})]
